@@ -149,6 +149,7 @@ type world struct {
 	silent      bool // no protocol lines
 	gcHolders   int  // Run goroutines holding the "garbage-collection" lock
 	gcHook      func(run int)
+	meet        chan struct{}
 }
 
 // classified failures (listed findings) are reported a few times only, so that
@@ -1158,7 +1159,7 @@ func patRegexp(pat string) string {
 func runScenario(r *hx.Run, seed uint64, idx int, sc *scenario) bool {
 	w := &world{r: r, sc: sc, idx: idx, seed: seed, lastName: map[int64]int{}, runOfGo: map[int64]int{}, startOfGo: map[int64]*startState{},
 		worker: map[int64]*worker{}, byKey: map[[2]int]*worker{}, driving: map[int]*worker{}, configured: map[int]int{}, silent: sc.silent,
-		client: &http.Client{}, regBind: map[int]int{}, locks: updates.NewLocalLockSource()}
+		client: &http.Client{}, regBind: map[int]int{}, locks: updates.NewLocalLockSource(), meet: make(chan struct{})}
 	w.store = &store{w: w}
 	for _, h := range sc.hist {
 		k := driver.VulnerabilityKind
